@@ -608,7 +608,13 @@ func c19Live(c *vh.Case) {
 	for i := 0; i < 6; i++ {
 		payloads = append(payloads, c19String(r))
 	}
-	c.SetSpec(map[string]any{"gen": "live", "transport": kind, "payloads": payloads})
+	big := 0
+	if (kind == "sse" || kind == "http") && r.Chance(1, vh.Pick(12, 4)) {
+		// one payload far beyond any line buffer a framing layer might assume
+		big = []int{70000, 1<<20 + 7, vh.Pick(1<<20+4096, 3<<20)}[r.Intn(3)]
+		payloads = append(payloads, strings.Repeat("0123456789abcdef", big/16)+"é")
+	}
+	c.SetSpec(map[string]any{"gen": "live", "transport": kind, "payloads": payloads[:6], "big_payload_bytes": big})
 	server := mcp.NewServer(&mcp.Implementation{Name: "s", Version: "1"}, &mcp.ServerOptions{
 		CompletionHandler: func(context.Context, *mcp.CompleteRequest) (*mcp.CompleteResult, error) { return &mcp.CompleteResult{}, nil },
 	})
@@ -619,6 +625,12 @@ func c19Live(c *vh.Case) {
 	})
 	server.AddTool(&mcp.Tool{Name: "nil", InputSchema: json.RawMessage(`{"type":"object"}`)}, func(context.Context, *mcp.CallToolRequest) (*mcp.CallToolResult, error) {
 		return &mcp.CallToolResult{}, nil
+	})
+	server.AddTool(&mcp.Tool{Name: "structured-nil", InputSchema: json.RawMessage(`{"type":"object"}`)}, func(context.Context, *mcp.CallToolRequest) (*mcp.CallToolResult, error) {
+		return &mcp.CallToolResult{StructuredContent: map[string]any{"k": []any{1, "x"}}}, nil
+	})
+	server.AddTool(&mcp.Tool{Name: "error-nil", InputSchema: json.RawMessage(`{"type":"object"}`)}, func(context.Context, *mcp.CallToolRequest) (*mcp.CallToolResult, error) {
+		return &mcp.CallToolResult{IsError: true}, nil
 	})
 	server.AddPrompt(&mcp.Prompt{Name: "p"}, func(context.Context, *mcp.GetPromptRequest) (*mcp.GetPromptResult, error) { return &mcp.GetPromptResult{}, nil })
 	server.AddResource(&mcp.Resource{URI: "file:///r", Name: "r"}, func(context.Context, *mcp.ReadResourceRequest) (*mcp.ReadResourceResult, error) {
@@ -668,11 +680,11 @@ func c19Live(c *vh.Case) {
 	for _, p := range payloads {
 		res, err := cs.CallTool(ctx, &mcp.CallToolParams{Name: "echo", Arguments: map[string]any{"text": p}})
 		if err != nil {
-			c.Violate("payload-broke-call", "%s: CallTool with text %q failed: %v", kind, p, err)
+			c.Violate("payload-broke-call", "%s: CallTool with text %q (%d bytes) failed: %v", kind, trunc80(p), len(p), err)
 			break
 		}
 		if got := res.Content[0].(*mcp.TextContent).Text; got != p {
-			c.Violate("payload-altered-by-framing", "%s: text %q came back as %q", kind, p, got)
+			c.Violate("payload-altered-by-framing", "%s: text %q came back as %q", kind, trunc80(p), trunc80(got))
 			break
 		}
 		if er, ok := res.Content[2].(*mcp.EmbeddedResource); !ok || er.Resource == nil || er.Resource.Text != p {
@@ -682,6 +694,8 @@ func c19Live(c *vh.Case) {
 	}
 	if !c.Violated() {
 		cs.CallTool(ctx, &mcp.CallToolParams{Name: "nil"})
+		cs.CallTool(ctx, &mcp.CallToolParams{Name: "structured-nil"})
+		cs.CallTool(ctx, &mcp.CallToolParams{Name: "error-nil"})
 		cs.ListTools(ctx, nil)
 		cs.ListPrompts(ctx, nil)
 		cs.ListResources(ctx, nil)
@@ -709,7 +723,7 @@ func c19Live(c *vh.Case) {
 	}
 	c.Count("live_sessions", 1)
 	c.Count("wire_responses_checked", len(methodOf))
-	c.Nontrivial("live:" + kind + strings.Join(payloads, "|"))
+	c.Nontrivial("live:" + kind + strings.Join(payloads[:6], "|") + fmt.Sprint(big))
 }
 
 var _ = testing.Short
